@@ -445,6 +445,17 @@ func (q *seq) opBlock(n int64) (string, string) {
 // ---------------------------------------------------------------------------------------------------------
 // monitors: the property clauses evaluated on real state before/after one op
 
+// propFilter reports only the monitors of the property being checked (VERIF_PROP=C05|C06; both when unset):
+// descriptions start with the property id(s) they belong to.
+type propFilter struct{ out *hx.Out }
+
+func (p propFilter) Violate(desc string) {
+	if prop := os.Getenv("VERIF_PROP"); prop != "" && !strings.Contains(strings.SplitN(desc, " ", 2)[0], prop) {
+		return
+	}
+	p.out.Violate(desc)
+}
+
 func poolIdx(sn snap) map[int]txRec {
 	m := map[int]txRec{}
 	for _, t := range sn.pool {
@@ -454,7 +465,7 @@ func poolIdx(sn snap) map[int]txRec {
 }
 
 func (q *seq) monitor(op, res string, pre, post snap) {
-	out := q.out
+	out := propFilter{q.out}
 	w := strings.Fields(op)
 	// C05 partition: every id in at most one place, in pool or exactly one batch
 	place := map[int]int{}
@@ -888,7 +899,11 @@ func (q *seq) randomOp() {
 	case r < 58: // request batch
 		q.genReqBatch(sn)
 	case r < 64:
-		q.do(func() (string, string) { return q.opBlock(int64(1 + q.rng.Intn(3))) })
+		n := int64(1 + q.rng.Intn(3))
+		if q.rng.Intn(6) == 0 { // fxcore's clock runs far ahead of the observed external height
+			n = int64(2000 + q.rng.Intn(60000))
+		}
+		q.do(func() (string, string) { return q.opBlock(n) })
 	case r < 84: // observation
 		h := q.boundaryHeight(sn)
 		if sn.obsExt == 0 && h == 0 {
